@@ -25,7 +25,7 @@ SCALE = 1024          # coefficient tokens handed to the Lean model: coef * SCAL
 SEG_LETTERS = set('CLOVFGJSbrkKxd')
 INV_OPC = {v: k for k, v in nlgen.OPC.items()}
 VARIADIC = ('sum', 'min', 'max')
-N_THEOREMS = 12
+N_THEOREMS = 11
 # vptr excluded: mp's CRTP base constructors downcast `this` before the derived object exists (flat/converter.h:51),
 # which UBSan's vptr check reports on every run; unrelated to this property
 SAN_FLAGS = ('-O1', '-g', '-fsanitize=address,undefined', '-fno-sanitize=vptr', '-fno-sanitize-recover=all')
@@ -835,7 +835,7 @@ def corpus_cases():
     mk(2, two, [('o', 0)], 'corpus: objno=0')
     mk(0, [], [], 'corpus: no objective')
     mk(0, [], [('o', 1)], 'corpus: objno=1 of 0')
-    mk(1, ['G0 1', '0 1'], [], 'corpus: objective with G segment only (finding C12-echo-noO)', 'dropO')
+    mk(1, ['G0 1', '0 1'], [], 'corpus: objective with G segment only (regression for fixed finding C12-echo-noO)', 'dropO')
     mk(2, ['G0 1', '0 1', 'O1 1', 'v1', 'G1 1', '0 2', 'O1 0', 'o2', 'v0', 'v1'], [('o', 2)], 'corpus: O segment given twice, G before O', 'dupO')
     return res
 
